@@ -1,6 +1,6 @@
 (* C17 - The plot shows every result exactly once, whatever the arrival order. *)
 From Coq Require Import ZArith List Bool Permutation Sorting.Sorted.
-From V Require Import Model.Plot Proofs.PlotProofs.
+From V Require Import Base.F64 Model.Plot Proofs.PlotProofs Proofs.F64Proofs.
 Import ListNotations.
 Open Scope Z_scope.
 
@@ -48,3 +48,14 @@ Example c17_example :
   [(false, 0, 9); (true, 2, 8); (false, 4, 7)] /\
   downsample 10 4 (fun _ l _ => l) = LPoints [0; 1; 5; 9].
 Proof. split; reflexivity. Qed.
+
+
+(* The reference model of binary64 rounding used to judge the real code where float and exact
+   rational bucket bounds differ (Base/F64.v): for every positive num and den, rn53 returns a
+   53-bit mantissa m and an exponent e with | num/den - m 2^e | <= 2^e / 2 (round to nearest). *)
+Theorem f64_rounding_nearest : forall num den, 0 < num -> 0 < den ->
+  let '(m, e) := rn53 num den in two52 <= m < two53 /\ near num den m e.
+Proof. exact rn53_spec. Qed.
+Print Assumptions f64_rounding_nearest.
+Example f64_example : rn53 15 11 = (6141272219141585, -52) /\ ftrunc (fmul_int 11 (fdiv_int 15 11)) = 14 /\ (11 * 15) / 11 = 15.
+Proof. repeat split; vm_compute; reflexivity. Qed.
